@@ -653,6 +653,8 @@ theorem step_inv (s s' : St) (op : Op) (h : SInv s) (hs : step? s op = some s') 
   | bput r => exact step_inv_bput s s' r h hs
   | bDec r => exact step_inv_bDec s s' r h hs
   | bBcast r => exact step_inv_bBcast s s' r h hs
+  | mark r =>
+    simp only [step?] at hs; split at hs <;> simp at hs; subst hs; exact h
   | hbRead => exact step_inv_hb s s' _ (Or.inl rfl) h hs
   | hbFire => exact step_inv_hb s s' _ (Or.inr rfl) h hs
 
